@@ -141,10 +141,19 @@ def run(seed=0, n=120):
             g = rng.randint(0, 1024)
             c = fresh()
             x = _pin(c, "x", a)
-            got = _val(c, floats.to_float(x / (span / 32768)).to_int())
+            res = floats.to_float(x / (span / 32768)).to_int()
             want = int(a / (span / 32768))
-            if got != want:
-                bad.append(("float-div", a, span, got, want))
+            # a rounded (inexact) division is modelled by facts about RN, i.e. over-approximated:
+            # soundness = CPython's value is among the values the model allows, and the model never
+            # strays by more than one unit in the last place of the truncated result
+            if isinstance(res, (SymInt, SymBool)):
+                rz = sym.as_int_z(res)
+                r1, _ = c._check(rz == want)
+                r2, _ = c._check(z3.Or(rz < want - 1, rz > want + 1))
+                if r1 != z3.sat or r2 != z3.unsat:
+                    bad.append(("float-div", a, span, str(r1), str(r2), want))
+            elif res != want:
+                bad.append(("float-div", a, span, res, want))
             got2 = _val(c, ((x * g) / 256).to_int()) if g else 0
             if got2 != int((a * g) / 256):
                 bad.append(("float-dyadic", a, g, got2))
